@@ -197,6 +197,8 @@ def frag_hex():
 def frag_xml():
     ref = st.one_of(
         st.integers(0, 300).map(lambda n: b"&#%d;" % n),
+        st.integers(0, 260).map(lambda n: b"&#%03d;" % n),
+        st.integers(0, 99).map(lambda n: b"&#%02d;" % n),
         st.integers(0, 255).map(lambda n: b"&#x%02x;" % n),
         st.integers(0, 255).map(lambda n: b"&#X%02X;" % n),
         st.tuples(st.sampled_from(list(b"0123456789abcdefgxzGZ")), st.sampled_from(list(b"0123456789abcdefgxzGZ"))).map(lambda t: b"&#x%c%c;" % t),
@@ -357,7 +359,7 @@ def wrap(inner):
         inner.map(lambda f: b64(f[:600])),
         st.tuples(inner, st.booleans()).map(lambda t: hexs(t[0][:400], t[1])),
         inner.map(lambda f: utf16(f[:400])),
-        inner.map(lambda f: xmlrefs(f[:60])),
+        st.tuples(inner, st.integers(0, 3)).map(lambda t: xmlrefs(t[0][:60], t[1])),
         inner.map(lambda f: b"atob('" + b64(f[:600]) + b"')"),
         inner.map(lambda f: b"cmd /c " + f),
         inner.map(lambda f: b"CreateObject(" + f + b")"),
